@@ -16,6 +16,8 @@ open RdfModel RdfModel.Desc RdfModel.JL RdfModel.JLEnc RdfModel.C10
 #print axioms RdfModel.C10.encoder_doc_context
 #print axioms RdfModel.C10.encoder_statement_read
 #print axioms RdfModel.C10.encCert_of_natural_holds
+#print axioms RdfModel.C10.encoder_forest_exists
+#print axioms RdfModel.C10.encoder_document_read
 #print axioms RdfModel.C10.encoder_roundtrip_natural2_partial
 #print axioms RdfModel.C10.gen_keywords
 #print axioms RdfModel.C10.gen_no_network_imports
@@ -96,3 +98,13 @@ theorem RdfModel.C10.Witness.roundtrip_natural2 :
     (defaultOrd Witness.d0) (defaultOrd Witness.d0) (fun _ h => h) (fun _ h => h) Witness.natural.1 Witness.natural.2.2.1
     Witness.natural2.2.1 Witness.natural2.2.2.1 Witness.natural2.2.2.2.1
 #print axioms RdfModel.C10.Witness.roundtrip_natural2
+
+/-- `encoder_document_read` at the witness (non-vacuity of its hypotheses) -/
+theorem RdfModel.C10.Witness.document_read :
+    ∃ doc F, encode Witness.cfg Witness.d0 (defaultOrd Witness.d0) (defaultOrd Witness.d0) = some doc ∧
+      encForest Witness.cfg Witness.d0 (defaultOrd Witness.d0) (defaultOrd Witness.d0) = some F ∧
+      toRdf true none doc = some (denForest Witness.cfg.label F (encStart F)).1 :=
+  encoder_document_read true none Witness.cfg Witness.d0 (defaultOrd Witness.d0) (defaultOrd Witness.d0)
+    Witness.name_nonempty (fun _ h => h) (fun _ h => h) Witness.natural.1 Witness.natural.2.2.1
+    Witness.natural2.2.1 Witness.natural2.2.2.1
+#print axioms RdfModel.C10.Witness.document_read
